@@ -3,13 +3,14 @@
      * the REGRESSION lemma, the heart of the compiler (every added precondition and every condition of an added
        effect is a regressed formula);
      * the abstract monitor the compilation implements decides the PDDL3 semantics of all five operators.
-   NOT proved (kept as [C06_LA_tcr_plan_goal]): the plan-level verdict equation of the compiled problem (needs the
+     * the PLAN-LEVEL verdict equation for problems whose constraints are all `always phi` ([C06_LA_tcr_always_plan]).
+   NOT proved (kept as [C06_LA_tcr_plan_goal]): the plan-level verdict equation for the other four operators (needs the
    embedding of the monitor into problems with the extra monitoring fluents). *)
 From Coq Require Import List ZArith NArith QArith Qcanon Bool.
 Import ListNotations.
 Require Import UPV.Core.Expr UPV.Core.Eval UPV.Core.Interp UPV.Planning.Problem UPV.Planning.Sem.
 Require Import UPV.Compilers.LayerA_Defs UPV.Compilers.LayerA_Quant UPV.Compilers.SimCheck UPV.Compilers.LayerA_Tcr.
-Require Import UPV.Proofs.LayerA_Tcr_proofs.
+Require Import UPV.Proofs.LayerA_base UPV.Proofs.LayerA_Tcr_proofs.
 Local Open Scope nat_scope.
 
 (* REGRESSION.  P a problem, a one of its ground actions ([gaction]: no parameters, no forall effects, effect targets are
@@ -131,6 +132,74 @@ Example C06_LA_tcr_monitor_nonvacuous :
   mverdict (fun (s : bool) (_ : expr) => s) (EAtMostOnce (EBool true)) [true; true; false] = true /\
   mverdict (fun (s : bool) (_ : expr) => s) (ESometimeAfter (EBool true) (EBool true)) [false; true] = true.
 Proof. repeat split; reflexivity. Qed.
+
+(* PLAN LEVEL for `always` constraints.  C: a list of `always phi` constraints, phi in the regression fragment
+   ([always_only]); P a ground problem ([gproblem]) with unique action names; [smp_exact]: FNode.simplify does not change
+   value or definedness; G: a set of states containing s0, closed under the steps of P, on which the regression lemma
+   applies ([reg_ok] for every action, [gdef] for every constraint body); the bodies hold in s0 ([AH]: otherwise the
+   compiler refuses the problem).  Then the compiled problem - it has NO trajectory constraints; the compiler only
+   added `simplify(regress phi a)` to the preconditions of the actions a that touch phi, left out the actions whose
+   preconditions became FALSE, and rebuilt the goal - accepts exactly the plans that are executable in P, reach the
+   goal, and visit only states satisfying every body ([always_valid], Compilers/LayerA_Tcr.v).  Same plan on both sides
+   (the compiler keeps the names of the ground actions).  Soundness (C06) is the direction left-to-right. *)
+Theorem C06_LA_tcr_always_plan :
+  forall (smp sub0 : expr -> expr) (mon : nat -> N) (C : list expr) (P : problem) (G : state -> Prop),
+    smp_exact smp -> unique_ids P -> gproblem P = true -> always_only P C = true ->
+    (forall s aid a args t, G s -> lookup_action P aid = Some a -> spec_step false P s a args = Some t -> G t) ->
+    (forall s aid a, G s -> lookup_action P aid = Some a -> reg_ok P s a = true) ->
+    (forall s phi, G s -> In (EAlways phi) C -> gdef s phi = true) ->
+    forall P', tcr_compile smp sub0 mon C P = Some P' ->
+    forall s0 pi, G s0 -> AH P C s0 = true ->
+      valid_plan false P' s0 pi = always_valid P C s0 pi.
+Proof. intros smp sub0 mon C P G H1 H2 H3 H4 H5 H6 H7 P1 H8 s0 pi H9 H10. exact (tcr_always_plan smp sub0 mon C P G H1 H2 H3 H4 H5 H6 H7 P1 H8 s0 pi H9 H10). Qed.
+Print Assumptions C06_LA_tcr_always_plan.
+
+Module TcrAlw.
+  Definition bfd (f : N) : fdecl := {| fd_id := f; fd_sig := []; fd_ty := FBool |}.
+  Definition fl0 (f : N) : expr := EFluent f [].
+  Definition setf (f : N) (b : bool) : action :=
+    {| a_params := []; a_pre := [];
+       a_effs := [{| e_fl := f; e_args := []; e_val := EBool b; e_cond := EBool true; e_kind := KAssign; e_vars := [];
+                     e_isbool := true |}] |}.
+  (* fluents f (0) and h (1); action 0 switches f off, action 1 reaches the goal h; constraint always f *)
+  Definition P0 : problem :=
+    {| p_objs := []; p_ifun := []; p_fluents := [bfd 0; bfd 1]; p_actions := [(0%N, setf 0 false); (1%N, setf 1 true)];
+       p_goals := [fl0 1]; p_invs := [] |}.
+  Definition C0 : list expr := [EAlways (fl0 0)].
+  Definition idf (e : expr) : expr := e.
+  Definition mon0 (k : nat) : N := 9%N.
+  Definition s0 : state := fun f _ => Some (VBool (f =? 0)%N).
+  Definition P0' : problem := match tcr_compile idf idf mon0 C0 P0 with Some x => x | None => P0 end.
+  Definition G0 (s : state) : Prop := gdef s (fl0 0) = true.
+End TcrAlw.
+
+Example C06_LA_tcr_always_plan_nonvacuous :
+  (forall pi, valid_plan false TcrAlw.P0' TcrAlw.s0 pi = always_valid TcrAlw.P0 TcrAlw.C0 TcrAlw.s0 pi) /\
+  valid_plan false TcrAlw.P0' TcrAlw.s0 [(1%N, [])] = true /\
+  valid_plan false TcrAlw.P0' TcrAlw.s0 [(0%N, []); (1%N, [])] = false /\
+  valid_plan false TcrAlw.P0 TcrAlw.s0 [(0%N, []); (1%N, [])] = true.
+Proof.
+  split; [|repeat split; vm_compute; reflexivity].
+  intros pi.
+  assert (Hact : forall aid a, lookup_action TcrAlw.P0 aid = Some a -> a = TcrAlw.setf 0 false \/ a = TcrAlw.setf 1 true).
+  { intros aid a H. unfold lookup_action in H. cbn [TcrAlw.P0 p_actions lookupN] in H.
+    destruct (aid =? 0)%N; [inversion H; auto|]. destruct (aid =? 1)%N; [inversion H; auto | discriminate]. }
+  apply (C06_LA_tcr_always_plan TcrAlw.idf TcrAlw.idf TcrAlw.mon0 TcrAlw.C0 TcrAlw.P0 TcrAlw.G0).
+  - intros e I. reflexivity.
+  - unfold unique_ids. cbn. repeat constructor; cbn; intuition discriminate.
+  - reflexivity.
+  - reflexivity.
+  - intros s aid a args t Gs Hlk Hst.
+    assert (Hga : gaction TcrAlw.P0 a = true) by (destruct (Hact aid a Hlk) as [-> | ->]; reflexivity).
+    assert (Hrg : reg_ok TcrAlw.P0 s a = true) by (destruct (Hact aid a Hlk) as [-> | ->]; reflexivity).
+    destruct (regression_step TcrAlw.P0 s a args t (TcrAlw.fl0 0) Hga Hrg Hst eq_refl eq_refl Gs) as (_ & _ & D).
+    unfold TcrAlw.G0. unfold isB in D. cbn in D. cbn. exact D.
+  - intros s aid a _ Hlk. destruct (Hact aid a Hlk) as [-> | ->]; reflexivity.
+  - intros s phi Gs [H|[]]. inversion H; subst. exact Gs.
+  - reflexivity.
+  - reflexivity.
+  - reflexivity.
+Qed.
 
 (* ---------------------------------------------------------------- the open part *)
 (* the plan-level statement for the whole compiler (not proved): for a ground problem in the fragment, exact
